@@ -248,6 +248,10 @@ func wrapperGet(res *vkit.Result, tr *tree.BTree, m *Model, k int, site, ctx str
 
 // runWrapperScan calls one of the four scans and compares with the statement.
 func runWrapperScan(res *vkit.Result, tr *tree.BTree, m *Model, op WOp, ctx string) (inside bool, ok bool) {
+	return runWrapperScanAt(res, tr, m, op, "wrapper.", ctx)
+}
+
+func runWrapperScanAt(res *vkit.Result, tr *tree.BTree, m *Model, op WOp, sitePrefix, ctx string) (inside bool, ok bool) {
 	asc, incl, _ := isScan(op.Kind)
 	f := filterFn(op.Filter, op.FArg)
 	pivot := keyPtr(op.NilPivot, op.Key)
@@ -268,7 +272,7 @@ func runWrapperScan(res *vkit.Result, tr *tree.BTree, m *Model, op WOp, ctx stri
 	}
 	exp := expectScan(m, asc, incl, pivot, f, op.N)
 	got, isItems := asItems(raw)
-	site := "wrapper." + scanName(op.Kind)
+	site := sitePrefix + scanName(op.Kind)
 	if !isItems || !sameItems(got, exp) {
 		res.Failf(site, "%s: %s(pivot=%s, filter=%s(%d), n=%d) = %s, want the first %d matching items in scan order: %s; sorted set %s",
 			ctx, scanName(op.Kind), pivStr(pivot), filterNames[op.Filter], op.FArg, op.N, fmtItems(got), op.N, fmtItems(exp), fmtItems(m.it))
@@ -314,6 +318,9 @@ func ExecWrapper(c CaseW) *vkit.Result {
 	res := &vkit.Result{}
 	tr := tree.NewBTree()
 	inner := tr.VerifInner()
+	if d := inner.VerifDegree(); d != 2 {
+		return res.Failf("wrapper.New/degree", "NewBTree builds its tree with New(2), the tree has degree %d", d)
+	}
 	m := &Model{}
 	st := &shapeTracker{}
 	scanInside := false
